@@ -288,6 +288,29 @@ def run(chk, replay=None):
             chk.violation('%s:quantile differs from the empirical probabilities of the reported distribution:near-tie' % tname,
                           {'test': tname, 'observed_statistic': stat, 'distribution': dist, 'quantile': got, 'expected': want, 'smallest_gap': gaps[0]})
         chk.nontrivial('near-tie|%s' % tname)
+    # the MLL test on its other route (full_calculation=True: magnitudes are resampled from the pooled synthetic magnitudes themselves,
+    # not from the union histogram) with magnitudes far above the lower edge of the open-ended top bin: every resampled catalog is
+    # binned like any catalog, so its statistic is the MLL score of the union histogram and the histogram of the values drawn
+    from csep.utils import stats as _stats
+    def mcat(pairs, cid=None):
+        return CSEPCatalog(data=[('m%d' % i, 10 ** 12 + i, 0.25, 0.25 + c_, 10.0, m_) for i, (c_, m_) in enumerate(pairs)], catalog_id=cid)
+    syn = [[(0, 4.3), (1, 6.4)], [(0, 5.2)], [(1, 7.1), (0, 4.6), (2, 4.9)], [(2, 9.0)]]
+    fcst = CatalogForecast(catalogs=[mcat(c_, i) for i, c_ in enumerate(syn)], region=world.make_region(), name='far-top', n_cat=len(syn))
+    obs = CSEPCatalog(data=[('o0', 10 ** 12, 0.25, 0.25, 10.0, 4.4), ('o1', 10 ** 12 + 1, 0.25, 1.25, 10.0, 6.8), ('o2', 10 ** 12 + 2, 0.25, 0.25, 10.0, 5.0)],
+                      region=world.make_region(), name='obs')
+    with ChoiceCapture(numpy) as cap, contextlib.redirect_stdout(io.StringIO()):
+        r = guarded_timeout(60, ce.MLL_magnitude_test, fcst, obs, full_calculation=True, seed=5)
+    chk.count()
+    union_hist = numpy.array([float(sum(1 for c_ in syn for (_c, m_) in c_ if 4.0 <= m_ < 5.0)), float(sum(1 for c_ in syn for (_c, m_) in c_ if m_ >= 5.0))])
+    if isinstance(r, Raised) or r is None or len(cap.draws) != len(r.test_distribution):
+        chk.violation('mll:full calculation:raised or draws not observed', {'err': repr(r), 'draws': len(cap.draws)})
+    else:
+        want = [float(_stats.MLL_score(union_hist, numpy.array([float((d >= 4.0).sum() - (d >= 5.0).sum()), float((d >= 5.0).sum())]))) for d in cap.draws]
+        got = [float(x) for x in r.test_distribution]
+        if any(len(d) != 3 for d in cap.draws) or any(not (abs(a_ - b_) <= 1e-12 * max(1.0, abs(b_))) for a_, b_ in zip(got, want)):
+            chk.violation('mll:full calculation:test distribution differs from the score of the drawn magnitudes (open-ended top bin)',
+                          {'got': got, 'expected': want, 'draws': [[float(x) for x in d] for d in cap.draws]})
+        chk.nontrivial('mll-full|%s' % sorted(float(x) for d in cap.draws for x in d)[-1])
     # random larger forecasts
     for t in range(6 if quick else 60):
         J = rng.choice([5, 30, 200])
